@@ -192,8 +192,9 @@ pub fn gen_type(p: &mut Prng, env: &Env, depth: u32, in_generic: bool, o: &GenOp
     let d = depth - 1;
     if r < 52 {
         // lists of simple things
-        let inner = match p.below(4) {
+        let inner = match p.below(5) {
             0 => T::Str,
+            4 if !o.exotic => T::List(Box::new(p.pick(SCALARS).clone())),
             1 if !env.decls.is_empty() => named(p, env, d, in_generic, o),
             _ => p.pick(SCALARS).clone(),
         };
